@@ -1,10 +1,139 @@
+import NA.Proofs.C19Number4
 import NA.Gen.NewPolicy
+/-!
+# C19 — the policy database always points to a complete, compiled policy
+
+Property theorems only.  `prog` is the instruction list that `translate/shgen` regenerates from
+`bin/newpolicy.sh` on every check; `run prog sysEmail es` replays an arbitrary history `es`
+(user commits good/bad, invocations, single steps of any live invocation in any order, kills
+before any command) on the model `NA/Model/NewPolicy.lean`.
+
+The proofs are generic in the program: `NA/Proofs/C19*.lean` show that a successful
+`check D prog ann` (a decidable data-flow check of locking / ordering / numbering discipline)
+implies the invariants for every history; here `check` is evaluated on the regenerated program
+by kernel computation (`safety_checked`, `numbering_checked`).  Moving `ln -s` before `mv`,
+dropping `rm -f $CURRENT`, changing `max(..)+1`, or removing `flock` makes one of these
+evaluations false.
+-/
 namespace NA.C19
 open NA.Gen.NewPolicy
 
-theorem placeholder_a : prog.length = prog.length := rfl
-theorem placeholder_b : prog.length = prog.length := rfl
-theorem placeholder_c : prog.length = prog.length := rfl
+/-! ### The regenerated script passes the static checks -/
 
-def obligations : List Lean.Name := [``placeholder_a, ``placeholder_b, ``placeholder_c]
+theorem safety_checked : check safety prog (infer safety prog) = true := by decide +kernel
+theorem numbering_checked : check numbering prog (infer numbering prog) = true := by decide +kernel
+
+/-! ### Invariants over all histories, kill points and interleavings -/
+
+/-- `current` is absent or names an existing directory that holds a successful compile. -/
+theorem current_absent_or_compiled (sysEmail : Bool) (es : List Event) :
+    (run prog sysEmail es).g.currentOK = true := by
+  have h := (inv1_run safety_checked sysEmail es).gi
+  unfold G.currentOK
+  cases hc : (run prog sysEmail es).g.current with
+  | none => rfl
+  | some n =>
+    obtain ⟨d, hd⟩ := h.cur n hc
+    simp [hd, h.dirs n d hd]
+
+/-- The compiler model: `netspoc` succeeds exactly on a good tree (no file BAD); only then is the
+compiled flag of `next` set. -/
+theorem compile_ok_iff_good (g : G) (p : Proc) :
+    (exec .compile g p).2.2 = true ↔ ∃ d c, g.next = some d ∧ d.head = some c ∧ (commitAt g.store c).good = true := by
+  simp only [exec]
+  cases hn : g.next with
+  | none => simp
+  | some d =>
+    cases hh : d.head with
+    | none => simp [hh]
+    | some c => by_cases hg : (commitAt g.store c).good = true <;> simp [hh, hg]
+
+/-- Whoever changes `current` (removes or re-points the link) is a live invocation that holds the
+lock and whose directory `p$POLICY` exists and holds a successful compile — so a commit that does
+not compile never changes `current`: neither the commit itself, nor a run that fails to compile
+it (such a run never gets a compiled `p$POLICY`). -/
+theorem bad_commit_never_changes_current (sysEmail : Bool) (es : List Event) (e : Event)
+    (hch : (step prog (run prog sysEmail es) e).g.current ≠ (run prog sysEmail es).g.current) :
+    ∃ pid p d, e = .step pid ∧ findProc (run prog sysEmail es).procs pid = some p ∧ p.alive = true ∧
+      (run prog sysEmail es).g.lock = some p.pid ∧
+      lookupDir (run prog sysEmail es).g.dirs p.policy = some d ∧ d.built = true :=
+  current_change safety_checked (inv1_run safety_checked sysEmail es) e hch
+
+/-- At most one invocation works on the database: two live invocations that have written or are
+about to write (anything below policies/ or to the repository) are the same invocation, and it
+holds the lock. -/
+theorem at_most_one_worker (sysEmail : Bool) (es : List Event) (p q : Proc)
+    (hp : p ∈ (run prog sysEmail es).procs) (hq : q ∈ (run prog sysEmail es).procs)
+    (wp : works prog p = true) (wq : works prog q = true) :
+    p = q ∧ (run prog sysEmail es).g.lock = some p.pid := by
+  have hinv := inv1_run safety_checked sysEmail es
+  have h1 := works_holds safety_checked hinv hp wp
+  have h2 := works_holds safety_checked hinv hq wq
+  rw [h1] at h2
+  injection h2 with h2
+  exact ⟨hinv.uniq p hp q hq h2, h1⟩
+
+theorem strictlyDecreasing_of_pairwise : ∀ l : List Nat, l.Pairwise (· > ·) → strictlyDecreasing l = true
+  | [], _ => rfl
+  | [_], _ => rfl
+  | a :: b :: rest, h => by
+    have h1 := List.pairwise_cons.mp h
+    simp only [strictlyDecreasing, Bool.and_eq_true, decide_eq_true_eq]
+    exact ⟨h1.1 b (by simp), strictlyDecreasing_of_pairwise (b :: rest) h1.2⟩
+
+/-- Policy numbers strictly increase: the numbers N of all `mv next pN` ever executed (ghost list
+`hist`, newest first) are strictly decreasing, i.e. every new policy directory gets a number larger
+than every number used before — for every history in which no `git clone/commit/pull --no-rebase/push` of
+the script has failed and nobody rewrote the POLICY file by hand.  (The full statement is false:
+`policy_numbers_strictly_increase_counterexample`.) -/
+theorem policy_numbers_strictly_increase_partial (sysEmail : Bool) (es : List Event)
+    (h1 : (run prog sysEmail es).g.trouble = false) (h2 : (run prog sysEmail es).g.edited = false) :
+    strictlyDecreasing (run prog sysEmail es).g.hist = true :=
+  strictlyDecreasing_of_pairwise _
+    ((inv2_run safety_checked numbering_checked sysEmail es).2.n ⟨h1, h2⟩).incr
+
+def stepsN (pid n : Nat) : List Event := List.replicate n (Event.step pid)
+def lastExit (s : State) : Option Nat := (s.procs.getLast?).bind (·.exit)
+
+/-- … false without that hypothesis: a user commit lands between `git pull` and `git push` of the
+second run (push rejected), the run is killed between `rm -f $CURRENT` and `ln -s`; the third run
+computes the number 2 again, its `mv next p2` lands inside the existing p2 and it makes the OLD
+directory p2 current. -/
+theorem policy_numbers_strictly_increase_counterexample :
+    ∃ es : List Event, strictlyDecreasing (run prog false es).g.hist = false ∧
+      (run prog false es).g.edited = false :=
+  ⟨[.spawn] ++ stepsN 1 80 ++ [.commit true none true, .spawn] ++ stepsN 2 47 ++ [.commit true none true] ++
+    stepsN 2 5 ++ [.kill 2, .spawn] ++ stepsN 3 80, by decide +kernel⟩
+
+/-- "The next undisturbed run makes the newest compiling revision current" is false (F-C19):
+the second run is killed after `git push`, right before `mv next $POLICY`.  The database is
+quiescent, the newest revision compiles, and one more undisturbed run exits 0 via `uptodate`
+and leaves `current` at p1. -/
+theorem next_run_promotes_newest_counterexample :
+    ∃ es : List Event,
+      quiescent (run prog false es) = true ∧
+      (commitAt (run prog false es).g.store (run prog false es).g.remote).good = true ∧
+      (run prog false es).g.staleNext = true ∧
+      quiescent (runNew prog 200 (run prog false es)) = true ∧
+      lastExit (runNew prog 200 (run prog false es)) = some 0 ∧
+      (runNew prog 200 (run prog false es)).g.newest = false ∧
+      (runNew prog 200 (run prog false es)).g.current = some 1 :=
+  ⟨[.spawn] ++ stepsN 1 80 ++ [.commit true none true, .spawn] ++ stepsN 2 50 ++ [.kill 2], by decide +kernel⟩
+
+/-- Same root cause, wider window (F-C19b): killed before the compile of the second run. -/
+theorem next_run_promotes_newest_counterexample_compile :
+    ∃ es : List Event,
+      quiescent (run prog false es) = true ∧
+      (commitAt (run prog false es).g.store (run prog false es).g.remote).good = true ∧
+      (run prog false es).g.staleNext = true ∧
+      lastExit (runNew prog 200 (run prog false es)) = some 0 ∧
+      (runNew prog 200 (run prog false es)).g.newest = false :=
+  ⟨[.spawn] ++ stepsN 1 80 ++ [.commit true none true, .spawn] ++ stepsN 2 38 ++ [.kill 2], by decide +kernel⟩
+
+def obligations : List Lean.Name := [
+  ``safety_checked, ``numbering_checked,
+  ``current_absent_or_compiled, ``compile_ok_iff_good, ``bad_commit_never_changes_current, ``at_most_one_worker,
+  ``policy_numbers_strictly_increase_partial, ``policy_numbers_strictly_increase_counterexample,
+  ``next_run_promotes_newest_counterexample, ``next_run_promotes_newest_counterexample_compile]
+
 end NA.C19
